@@ -209,3 +209,29 @@ def run_cli(source, path="t.sd", timeout=10, env=None, cwd=None):
     finally:
         import shutil
         shutil.rmtree(d, ignore_errors=True)
+
+
+def cli_batch(sources, path="t.sd", timeout=10, env=None):
+    """many runs through the unmodified command-line path, in parallel; one result dict per source"""
+    if not sources:
+        return []
+    root = Path(tempfile.mkdtemp(prefix="clib", dir=str(BUILD)))
+    try:
+        def one(i_src):
+            i, src = i_src
+            d = root / str(i)
+            d.mkdir()
+            fp = d / path
+            fp.write_bytes(src.encode("utf-8") if isinstance(src, str) else src)
+            try:
+                p = subprocess.run([str(SEED_BIN), path], cwd=str(d), stdout=subprocess.PIPE, stderr=subprocess.PIPE,
+                                   timeout=timeout, env=env, stdin=subprocess.DEVNULL)
+                return {"stdout": p.stdout.decode("utf-8", errors="replace"), "status": str(p.returncode),
+                        "stderr": p.stderr.decode("utf-8", errors="replace")}
+            except subprocess.TimeoutExpired:
+                return {"stdout": "", "status": "timeout", "stderr": ""}
+        with cf.ThreadPoolExecutor(max_workers=NPROC) as ex:
+            return list(ex.map(one, enumerate(sources)))
+    finally:
+        import shutil
+        shutil.rmtree(root, ignore_errors=True)
